@@ -4,6 +4,9 @@ import (
 	"context"
 	"fmt"
 
+	lisp "github.com/jig/lisp"
+	"github.com/jig/lisp/printer"
+
 	"github.com/jig/lisp/types"
 	"verif.local/harness/h"
 )
@@ -182,6 +185,48 @@ func runC14(tier string, seed uint64, rep *Report) {
 				one(types.Vector{Val: []types.MalType{1, vals[i]}}, types.Vector{Val: []types.MalType{1, vals[j]}}, "empty-"+kind+"-nested")
 				_ = ok
 			}
+		}
+	}
+	// values that came out of the READER carry source positions (symbols, lists, vectors): the same data read from
+	// two texts with different layout / module name, against each other and against the position-less built value
+	nr := 600
+	if tier == "thorough" {
+		nr = 30000
+	}
+	for i := 0; i < nr; i++ {
+		a := h.GenData(r, 3)
+		if i < 8 {
+			a = []types.MalType{types.Symbol{Val: "a"}, types.List{Val: []types.MalType{types.Symbol{Val: "a"}, types.Symbol{Val: "b"}}},
+				types.Vector{Val: []types.MalType{types.Symbol{Val: "k"}, types.List{Val: []types.MalType{1, 2}}, types.Vector{Val: []types.MalType{3}}}},
+				types.HashMap{Val: map[string]types.MalType{h.Kw("k"): types.Symbol{Val: "a"}}},
+				types.List{Val: []types.MalType{types.List{Val: []types.MalType{1, 2}}}}, types.Vector{Val: []types.MalType{types.Vector{Val: []types.MalType{}}}},
+				types.HashMap{Val: map[string]types.MalType{h.Kw("xs"): types.List{Val: []types.MalType{1, 2}}}},
+				types.HashMap{Val: map[string]types.MalType{h.Kw("xs"): types.Vector{Val: []types.MalType{types.Symbol{Val: "q"}}}}}}[i]
+		}
+		txt := printer.Pr_str(a, true)
+		r1, e1 := lisp.READ(txt, nil, w.Env)
+		r2, e2 := lisp.READ("\n\n   "+txt+" ; c", types.NewCursorFile("mod.lisp"), w.Env)
+		if e1 != nil || e2 != nil || !h.StructEq(a, r1) {
+			rep.Histogram["read-skipped"]++
+			continue // not every generated value has a readable printed form (C06's business)
+		}
+		one(r1, r2, "read-at-two-positions")
+		one(r1, a, "read-vs-built")
+		one(a, r2, "built-vs-read")
+		one(types.Vector{Val: []types.MalType{r1}}, types.List{Val: []types.MalType{r2}}, "read-nested")
+		one(types.HashMap{Val: map[string]types.MalType{h.Kw("k"): r1}}, types.HashMap{Val: map[string]types.MalType{h.Kw("k"): r2}}, "read-in-map")
+		if ab, bc, ac := eq(r1, a), eq(a, r2), eq(r1, r2); ab.Val == true && bc.Val == true && ac.Val != true {
+			rep.Violate(-1, "= is not transitive", fmt.Sprintf("read once, built, read again: %s", txt))
+		}
+	}
+	// the same through programs: quoted data compared with data built by calls
+	for _, src := range []string{"(= 'a 'a)", "(= 'a (symbol \"a\"))", "(= '(a b) (list 'a 'b))", "(= {:k 'a} {:k 'a})", "(= `(a ~(+ 1 1)) '(a 2))",
+		"(= (read-string \"(a [b])\") '(a [b]))", "(let [s 'a] (= s 'a))", "(= ['a] ['a])", "(= {:xs (list 1 2)} {:xs [1 2]})", "(= [(list 1 2)] [[1 2]])",
+		"(= {:a {:xs (rest [0 1])}} {:a {:xs [1]}})", "(= (list {:xs '(1)}) [{:xs [1]}])"} {
+		o := w.EvalText(context.Background(), src)
+		rep.Histogram["program-level"]++
+		if o.Val != true {
+			rep.Violate(-1, "structurally equal data compared unequal", src+" => "+h.Show(o.Val))
 		}
 	}
 	// reflexivity over the universe and random values
